@@ -290,7 +290,30 @@ def run_corpus(ck, stream, n, per_bin=20, allow_regex=True, forms=None, default_
 
 
 def _sq(x):
-    return None if x is None else "".join(x.split())
+    """Blank-free form for comparing printed token streams (rustc and proc-macro2 space tokens differently);
+    the content of string literals is kept as it is: blanks inside a literal are part of the value."""
+    if x is None:
+        return None
+    out = []
+    in_str = False
+    i = 0
+    while i < len(x):
+        ch = x[i]
+        if in_str:
+            out.append(ch)
+            if ch == "\\" and i + 1 < len(x):
+                out.append(x[i + 1])
+                i += 1
+            elif ch == '"':
+                in_str = False
+        else:
+            if ch == '"':
+                in_str = True
+                out.append(ch)
+            elif not ch.isspace():
+                out.append(ch)
+        i += 1
+    return "".join(out)
 
 
 def compare(ck, cases, stream):
